@@ -83,12 +83,17 @@ struct Spec {
     es: Vec<E>,
     family: String,
     via_files: bool,
+    /// Some((shape, k)): a case of the "deep" family, rebuilt from (shape, n, k)
+    deep: Option<(String, usize)>,
 }
 struct Gen {
     specs: Vec<Spec>,
 }
 fn add_case(g: &mut Gen, n: usize, es: Vec<E>, family: &str, via_files: bool, _tmp: &std::path::Path) {
-    g.specs.push(Spec { n, es, family: family.to_string(), via_files });
+    g.specs.push(Spec { n, es, family: family.to_string(), via_files, deep: None });
+}
+fn add_deep(g: &mut Gen, shape: &str, n: usize, k: usize) {
+    g.specs.push(Spec { n, es: vec![], family: "deep".to_string(), via_files: false, deep: Some((shape.to_string(), k)) });
 }
 fn deal(g: Gen, st: &mut Stream, shards: usize, tmp: &std::path::Path) {
     let total = g.specs.len();
@@ -104,6 +109,10 @@ fn deal(g: Gen, st: &mut Stream, shards: usize, tmp: &std::path::Path) {
     }
     for i in order {
         let sp = slots[i].take().unwrap();
+        if let Some((shape, k)) = &sp.deep {
+            emit_deep(st, shape, sp.n, *k);
+            continue;
+        }
         emit_case(st, sp.n, sp.es, &sp.family, sp.via_files, tmp);
     }
 }
@@ -363,10 +372,356 @@ fn random_graph(r: &mut Rng, maxn: usize) -> (usize, Vec<E>, &'static str) {
     (n, es, fam)
 }
 
+/// "deep" family: graphs whose depth-first search follows one path of thousands of vertices.
+/// Fully determined by (shape, n, k); k is a ring / block size where the shape has one.
+fn deep_graph(shape: &str, n: usize, k: usize) -> Vec<E> {
+    let mut es: Vec<E> = vec![];
+    match shape {
+        // one-way ring 0 -> 1 -> ... -> n-1 -> 0: one component
+        "ring" => {
+            for i in 0..n {
+                es.push((i, (i + 1) % n));
+            }
+        }
+        // the same ring numbered against the direction of travel
+        "ring_rev" => {
+            for i in 0..n {
+                es.push(((i + 1) % n, i));
+            }
+        }
+        // one-way chain: n singleton components, forward search is deep
+        "chain" => {
+            for i in 0..n - 1 {
+                es.push((i, i + 1));
+            }
+        }
+        // chain pointing at vertex 0: forward search is shallow, the reverse search from the sink is deep
+        "chain_rev" => {
+            for i in 0..n - 1 {
+                es.push((i + 1, i));
+            }
+        }
+        // two-way chain: one component
+        "two_way_chain" => {
+            // all forward links, then all backward links (run-length friendly edge order)
+            for i in 0..n - 1 {
+                es.push((i, i + 1));
+            }
+            for i in 0..n - 1 {
+                es.push((i + 1, i));
+            }
+        }
+        // rings of k vertices joined by one-way links ring j -> ring j+1: n/k components (+ a smaller last one)
+        "rings_linked" => {
+            let mut start = 0;
+            while start < n {
+                let len = k.min(n - start);
+                for i in 0..len {
+                    es.push((start + i, start + (i + 1) % len));
+                }
+                if start + len < n {
+                    es.push((start + len - 1, start + len));
+                }
+                start += len;
+            }
+        }
+        // lollipop: ring of k vertices, then a one-way tail of n-k vertices leaving it
+        "lollipop_out" => {
+            for i in 0..k {
+                es.push((i, (i + 1) % k));
+            }
+            es.push((k - 1, k));
+            for i in k..n - 1 {
+                es.push((i, i + 1));
+            }
+        }
+        // lollipop with the tail leading into the ring, tail numbered first
+        "lollipop_in" => {
+            let t = n - k;
+            for i in 0..t {
+                es.push((i, i + 1));
+            }
+            for i in 0..k {
+                es.push((t + i, t + (i + 1) % k));
+            }
+        }
+        // roundabout 0,1,2 with a loop road of n-3 vertices leaving at 2 and coming back at 0
+        "loop_road" => {
+            es.push((0, 1));
+            es.push((1, 2));
+            es.push((2, 0));
+            es.push((2, 3));
+            for i in 3..n - 1 {
+                es.push((i, i + 1));
+            }
+            es.push((n - 1, 0));
+        }
+        // two-way ring with every k-th link one-way: still one component
+        "two_way_ring_some_one_way" => {
+            for i in 0..n {
+                es.push((i, (i + 1) % n));
+            }
+            for i in 0..n {
+                if i % k != 0 {
+                    es.push(((i + 1) % n, i));
+                }
+            }
+        }
+        _ => panic!("unknown deep shape {}", shape),
+    }
+    es
+}
+
+/// run the implementation on a thread with the given stack size (the real searches recurse once
+/// per vertex of the path they follow)
+fn run_scc_on_stack(n: usize, es: Vec<E>, stack: usize) -> Result<Result<(Vec<Vec<usize>>, Vec<usize>), String>, String> {
+    let h = std::thread::Builder::new()
+        .stack_size(stack)
+        .spawn(move || {
+            catch(move || -> Result<(Vec<Vec<usize>>, Vec<usize>), String> {
+                let g = build_direct(n, &es);
+                let comps = all_strongly_connected_componenets(&g).map_err(|e| format!("{:?}", e))?;
+                let largest = largest_strongly_connected_component(&g).map_err(|e| format!("{:?}", e))?;
+                Ok((comps.iter().map(|c| c.iter().map(|v| v.0).collect()).collect(), largest.iter().map(|v| v.0).collect()))
+            })
+        })
+        .unwrap();
+    h.join().unwrap_or_else(|_| Err("thread died".to_string()))
+}
+
+/// Deep cases run the implementation on an ORDINARY stack: a thread of 2 MiB, the default of
+/// std::thread and of rayon workers (set explicitly so that RUST_MIN_STACK cannot change it), inside a
+/// CHILD PROCESS (this binary re-invoked in `--child` mode), because a stack overflow is not a panic
+/// but aborts the whole process.  A child that dies is reported as the I line
+/// `ABORT(stack overflow or crash)`.  This is what guards the fixed defect D-SCC-STACK: before
+/// /repo 5cf0f14 the recursive searches (about 240 bytes a frame) aborted on a one-way chain or
+/// ring of 8713 vertices on such a thread and of 34927 vertices on the 8 MiB main thread.
+const ORDINARY_STACK: usize = 2 << 20;
+
+fn rle_list(v: &[usize]) -> Vec<(usize, usize, bool)> {
+    let mut out: Vec<(usize, usize, bool)> = vec![];
+    let mut i = 0;
+    while i < v.len() {
+        let a = v[i];
+        let mut len = 1;
+        let mut up = true;
+        if i + 1 < v.len() && (v[i + 1] == a + 1 || v[i + 1] + 1 == a) {
+            up = v[i + 1] == a + 1;
+            while i + len < v.len() && (if up { v[i + len] == a + len } else { v[i + len] + len == a }) {
+                len += 1;
+            }
+        }
+        out.push((a, len, up));
+        i += len;
+    }
+    out
+}
+fn coq_runs(r: &[(usize, usize, bool)]) -> String {
+    coq_list(r, |(a, k, up)| format!("({}%N,{}%N,{})", a, k, up))
+}
+/// run-length encoded components as a Gallina `list citem`
+fn coq_citems(comps: &[Vec<usize>]) -> String {
+    let mut items: Vec<String> = vec![];
+    let mut i = 0;
+    while i < comps.len() {
+        if comps[i].len() == 1 {
+            // a maximal stretch of one-vertex blocks, then its runs
+            let mut j = i;
+            while j < comps.len() && comps[j].len() == 1 {
+                j += 1;
+            }
+            let singles: Vec<usize> = comps[i..j].iter().map(|c| c[0]).collect();
+            for (a, k, up) in rle_list(&singles) {
+                items.push(format!("Singles {}%N {}%N {}", a, k, up));
+            }
+            i = j;
+        } else {
+            items.push(format!("Blk {}", coq_runs(&rle_list(&comps[i]))));
+            i += 1;
+        }
+    }
+    format!("[{}]", items.join(";"))
+}
+/// run-length encoded edge list: (s, d, ds, dd, k) = k edges (s + i*ds, d + i*dd)
+fn coq_eruns(es: &[E]) -> String {
+    let mut out: Vec<String> = vec![];
+    let mut i = 0;
+    while i < es.len() {
+        let (s, d) = es[i];
+        let mut len = 1;
+        let (mut ds, mut dd) = (0i64, 0i64);
+        if i + 1 < es.len() {
+            ds = es[i + 1].0 as i64 - s as i64;
+            dd = es[i + 1].1 as i64 - d as i64;
+            while i + len < es.len()
+                && es[i + len].0 as i64 == s as i64 + ds * len as i64
+                && es[i + len].1 as i64 == d as i64 + dd * len as i64
+            {
+                len += 1;
+            }
+        }
+        if len == 1 {
+            ds = 0;
+            dd = 0;
+        }
+        out.push(format!("({}%N,{}%N,({})%Z,({})%Z,{}%N)", s, d, ds, dd, len));
+        i += len;
+    }
+    format!("[{}]", out.join(";"))
+}
+
+/// certificate for the Coq checker: the implementation's components in an order in which no edge
+/// leads from a later block to an earlier one.  Kosaraju's own output order already is one; if it
+/// is not (or the blocks are not a partition), try a topological sort of the condensation, and
+/// fall back to the raw order (the checker then rejects, as it must when the condensation is cyclic).
+fn certificate_order(n: usize, es: &[E], comps: &[Vec<usize>]) -> Vec<Vec<usize>> {
+    let mut comp_of: Vec<usize> = vec![usize::MAX; n];
+    for (i, c) in comps.iter().enumerate() {
+        for v in c {
+            if *v >= n || comp_of[*v] != usize::MAX {
+                return comps.to_vec();
+            }
+            comp_of[*v] = i;
+        }
+    }
+    if comp_of.iter().any(|c| *c == usize::MAX) {
+        return comps.to_vec();
+    }
+    if es.iter().all(|(s, d)| comp_of[*s] <= comp_of[*d]) {
+        return comps.to_vec();
+    }
+    let m = comps.len();
+    let mut succ: Vec<Vec<usize>> = vec![vec![]; m];
+    let mut indeg: Vec<usize> = vec![0; m];
+    for (s, d) in es {
+        let (a, b) = (comp_of[*s], comp_of[*d]);
+        if a != b {
+            succ[a].push(b);
+            indeg[b] += 1;
+        }
+    }
+    let mut queue: std::collections::VecDeque<usize> = (0..m).filter(|i| indeg[*i] == 0).collect();
+    let mut order: Vec<usize> = vec![];
+    while let Some(a) = queue.pop_front() {
+        order.push(a);
+        for b in &succ[a] {
+            indeg[*b] -= 1;
+            if indeg[*b] == 0 {
+                queue.push_back(*b);
+            }
+        }
+    }
+    if order.len() != m {
+        return comps.to_vec();
+    }
+    order.into_iter().map(|i| comps[i].clone()).collect()
+}
+
+/// child mode: run one deep case on the ordinary stack and print its result as one JSON line
+fn deep_child(shape: &str, n: usize, k: usize) {
+    let es = deep_graph(shape, n, k);
+    let out = run_scc_on_stack(n, es.clone(), ORDINARY_STACK);
+    let v = match &out {
+        Ok(Ok((comps, largest))) => {
+            let ordered = certificate_order(n, &es, comps);
+            json!({"ok": {
+                "ncomps": comps.len(),
+                "largest_len": largest.len(),
+                "big": comps.iter().map(|c| c.len()).max().unwrap_or(0),
+                "cs": coq_citems(&ordered),
+                "lg": coq_runs(&rle_list(largest)),
+            }})
+        }
+        Ok(Err(e)) => json!({"err": e}),
+        Err(p) => json!({"panic": p}),
+    };
+    println!("{}", v);
+}
+
+fn emit_deep(st: &mut Stream, shape: &str, n: usize, k: usize) {
+    let id = st.next_id();
+    let es = deep_graph(shape, n, k);
+    let exe = std::env::current_exe().unwrap();
+    let child = std::process::Command::new(exe)
+        .args(["child", "--child", shape, &n.to_string(), &k.to_string()])
+        .env_remove("RUST_MIN_STACK")
+        .output();
+    let mut terms: Vec<String> = vec![];
+    let line;
+    let parsed: Option<serde_json::Value> = match &child {
+        Ok(o) if o.status.success() => String::from_utf8_lossy(&o.stdout).lines().last().and_then(|l| serde_json::from_str(l).ok()),
+        _ => None,
+    };
+    let expect_ok = |terms: &mut Vec<String>| {
+        terms.push(format!("line \"M\" {} \"an Ok result accepted by deep_check\"", id));
+        terms.push(format!("line \"S\" {} \"an Ok result accepted by deep_check\"", id));
+    };
+    match &parsed {
+        Some(v) if v.get("ok").is_some() => {
+            let o = &v["ok"];
+            let (ncomp, big) = (o["ncomps"].as_u64().unwrap() as usize, o["big"].as_u64().unwrap() as usize);
+            let (cs, lg) = (o["cs"].as_str().unwrap(), o["lg"].as_str().unwrap());
+            line = format!("I {} Ok deep ncomps={} largest_len={}", id, ncomp, o["largest_len"].as_u64().unwrap());
+            terms.push(format!("line_deep_echo {} {} {}", id, cs, lg));
+            terms.push(format!("line_deep_spec {} {}%N {} {} {}", id, n, coq_eruns(&es), cs, lg));
+            st.count(&format!("components:{}", bucket(ncomp)));
+            st.count(&format!("largest_size:{}", bucket(big)));
+            if big >= 2 && ncomp >= 2 {
+                st.count("nontrivial");
+                st.mark_nontrivial(&format!("deep {} {} {}", shape, n, k));
+            }
+        }
+        Some(v) if v.get("err").is_some() => {
+            line = format!("I {} Err {}", id, v["err"].as_str().unwrap_or("").replace('\n', " "));
+            expect_ok(&mut terms);
+        }
+        Some(v) if v.get("panic").is_some() => {
+            line = format!("I {} PANIC {}", id, v["panic"].as_str().unwrap_or("").replace('\n', " "));
+            expect_ok(&mut terms);
+        }
+        _ => {
+            // the child died (signal / non-zero exit / no result line)
+            line = format!("I {} ABORT(stack overflow or crash)", id);
+            st.count("deep_child_aborted");
+            expect_ok(&mut terms);
+        }
+    }
+    st.count("family:deep");
+    st.count(&format!("deep_shape:{}", shape));
+    st.count(&format!("vertices:{}", bucket(n)));
+    st.count(&format!("edges:{}", bucket(es.len())));
+    st.count(&format!(
+        "deep_vertices:{}",
+        if n < 8713 { "4500-8712" } else if n < 34927 { "8713-34926 (crashed a 2 MiB thread before the fix)" } else { ">=34927 (crashed the 8 MiB main thread before the fix)" }
+    ));
+    let desc = json!({"id": id, "family": "deep", "shape": shape, "n": n, "k": k});
+    st.case(terms, vec![line], desc);
+}
+
 fn main() {
     silence_panics();
     let a = parse_args();
-    let header = "From Coq Require Import ZArith List String.\nFrom RC Require Import Base.Show Model.Scc Model.SccRun.\nImport ListNotations.";
+    // c18 child --child <shape> <n> <k>: one deep case on the ordinary stack, result as JSON on stdout
+    if let Some(i) = a.extra.iter().position(|x| x == "--child") {
+        let shape = a.extra[i + 1].clone();
+        deep_child(&shape, a.extra[i + 2].parse().unwrap(), a.extra[i + 3].parse().unwrap());
+        return;
+    }
+    // c18 probe --probe <shape> <n> <k> <stack_bytes>: does the implementation survive this depth?
+    if let Some(i) = a.extra.iter().position(|x| x == "--probe") {
+        let shape = a.extra[i + 1].clone();
+        let n: usize = a.extra[i + 2].parse().unwrap();
+        let k: usize = a.extra[i + 3].parse().unwrap();
+        let stack: usize = a.extra[i + 4].parse().unwrap();
+        let es = deep_graph(&shape, n, k);
+        let t0 = std::time::Instant::now();
+        match run_scc_on_stack(n, es, stack) {
+            Ok(Ok((comps, largest))) => println!("ok shape={} n={} stack={} comps={} largest={} {:?}", shape, n, stack, comps.len(), largest.len(), t0.elapsed()),
+            other => println!("fail {:?}", other.map(|_| ())),
+        }
+        return;
+    }
+    let header = "From Coq Require Import ZArith NArith List String.\nFrom RC Require Import Base.Show Model.Scc Model.SccRun Model.SccDeep Model.SccDeepRun.\nImport ListNotations.";
     let mut st = Stream::new(&a.out, "scc", header, a.shards);
     let tmp = a.out.clone();
     if let Some(p) = &a.replay {
@@ -374,6 +729,11 @@ fn main() {
         let v: serde_json::Value = serde_json::from_str(&std::fs::read_to_string(p).unwrap()).unwrap();
         let case = &v["case"];
         let n = case["n"].as_u64().unwrap() as usize;
+        if let Some(shape) = case["shape"].as_str() {
+            emit_deep(&mut st, shape, n, case["k"].as_u64().unwrap_or(0) as usize);
+            st.finish();
+            return;
+        }
         let es: Vec<E> = serde_json::from_value(case["edges"].clone()).unwrap();
         let via = case["via_files"].as_bool().unwrap_or(false);
         emit_case(&mut st, n, es, "replay", via, &tmp);
@@ -447,8 +807,39 @@ fn main() {
     add_case(&mut st, 2, vec![(0, 4), (4, 0), (0, 1)], "dangling_endpoint_from_files", true, &tmp);
     add_case(&mut st, 3, vec![(0, 1), (1, 0), (1, 7)], "dangling_endpoint_from_files", true, &tmp);
     add_case(&mut st, 3, vec![(0, 1), (5, 0), (2, 2)], "dangling_endpoint_from_files", true, &tmp);
-    // ---- random ----
+    // ---- deep: one search path of 4500..20000 (fixed sizes up to 300000) vertices, implementation on
+    // an ordinary 2 MiB stack in a child process (the model is not run at this size; the verified
+    // near-linear checker SccDeep.deep_check judges the implementation's output) ----
     let mut rng = Rng::new(a.seed);
+    add_deep(&mut st, "ring", 6000, 0);
+    add_deep(&mut st, "chain", 6000, 0);
+    add_deep(&mut st, "loop_road", 5003, 0);
+    // sizes that aborted the process before the fix of D-SCC-STACK (2 MiB thread: 8713, main thread: 34927)
+    for shape in ["chain", "ring", "two_way_chain"] {
+        add_deep(&mut st, shape, 9000, 0);
+        add_deep(&mut st, shape, 40000, 0);
+        if thorough {
+            add_deep(&mut st, shape, 300000, 0);
+        }
+    }
+    {
+        let shapes = ["ring", "ring_rev", "chain", "chain_rev", "two_way_chain", "rings_linked", "lollipop_out", "lollipop_in", "loop_road", "two_way_ring_some_one_way"];
+        let extra_deep = if thorough { 40 } else { 5 };
+        let mut r = rng.fork();
+        for j in 0..extra_deep {
+            // quick: five shapes picked by the seed; thorough: every shape four times
+            let shape = if thorough { shapes[j % shapes.len()] } else { shapes[r.below(shapes.len() as u64) as usize] };
+            let n = r.range(4500, 20000) as usize;
+            let k = match shape {
+                "rings_linked" => r.range(2, 6000) as usize,
+                "lollipop_out" | "lollipop_in" => r.range(2, n as i64 - 4200) as usize,
+                "two_way_ring_some_one_way" => r.range(500, 3000) as usize,
+                _ => 0,
+            };
+            add_deep(&mut st, shape, n, k);
+        }
+    }
+    // ---- random ----
     // --n = number of random cases (the deterministic families above are always complete)
     let target = st.specs.len() + a.n;
     let mut k = 0usize;
